@@ -62,6 +62,12 @@ CHECKS = {
         "note": TRUST + " The ledger abstracts the write path's reservation states into 'owned'; the link from the write path to the ledger is by the quiescent-point oracle, not proved.",
         "design": "DESIGN.md section 5 C05",
     },
+    "C09": {
+        "category": "proof",
+        "text": "PARTIAL proof. Proved in Coq (abstract device): at every protocol state -- hence at the state where a device call fails -- every crash image and the device as it stands recover to the contents before or after the transaction in flight and never to anything older than the last acknowledgement; a failed write-before or fsync changes no crash image; whatever part of a journaled batch reached the device is contained in the journaled extents (so it can be scrubbed, and is wiped by replay). NOT proved: the failure-handling code itself (scrub transaction, quarantine/poison, requeue order, error propagation worker -> force_flush -> flush_all, healing). That part is decided by execution: fault injection at every device call (before/after), pairs, persistent and healing failures on the real store with the Coq monitor accepting each faulted history and an oracle for acknowledgement windows, reads during failure, no hang/death, and flush success after healing.",
+        "note": TRUST + " Fault model A4 (fail-stop; failed fsync = writes stay un-synced). io_uring-path faults are not injected.",
+        "design": "DESIGN.md section 5 C09",
+    },
     "C10": {
         "text": "Codec theorems in Coq over a byte-level model written from the documented layout: little-endian round trips, CRC-32C chaining and table=bitwise definition (finite check lifted), parse.serialize round trip for v1 and v2/v3 record heads (whole extent and head block), value offset, token range/non-zero/idempotent self-verifying stamp, retirement-marker round trip and marker/record/zero disjointness. Tie on every run: (i) every pure format function vs the Coq codec through hook H3, (ii) whole files after flush() decoded by the model as an independent reader must equal the live contents with clear journal and exact counters, (iii) a golden corpus of v1/v2/v3 files from the pinned release must be decoded by the model to their manifests, be read back by the working tree, and keep their format when written to.",
         "note": TRUST + " Not proved: the whole-file bridge (decode of an encoded abstract disk) -- it is checked by execution (ii, iii).",
